@@ -26,8 +26,8 @@ m = {
     "version": 1,
     "setup_cmd": "sh scripts/setup.sh",
     "hooks": {"guard": "verif", "enable": "go build -tags verif (harness/cmd/drive is built against /repo with the tag on)",
-              "baseline_off_cmd": "cd /repo && go test -vet=off -count=1 ./x/...  # guard off: x/node/keeper/verif_hooks.go is not compiled",
-              "source_commits": ["6317710"], "add_only": True},
+              "baseline_off_cmd": "cd /repo && go test -vet=off -count=1 ./x/...  # guard off: x/node/keeper/verif_hooks.go (VerifSharesBeforeModified, VerifResetGlobals) is not compiled",
+              "source_commits": ["6317710", "e3811ae"], "add_only": True},
     "engines": [{"name": "lean4-model+correspondence", "path": "/verif/lean + /verif/harness", "serves_properties": [c["property_id"] for c in checks],
                  "kind_free_text": "Lean 4 model + theorems (lake build, #print axioms audit); Go harness drives the real keepers, compiled Lean driver replays each step and evaluates monitors"}],
     "checks": checks,
